@@ -72,7 +72,7 @@ func check(ctx *pbt.Ctx, c Case) error {
 		ctx.Discard("over_budget")
 		return nil
 	}
-	lockObj := bscript.NewFromBytes(append([]byte{}, c.Lock...))
+	lockObj := bscript.NewFromBytes(ref.Canary(c.Lock))
 	unlockObj := tx.Inputs[0].UnlockingScript
 	prev := &bt.Output{Satoshis: c.Ctx.Amount, LockingScript: lockObj}
 	txBefore := append([]byte{}, tx.Bytes()...)
@@ -81,10 +81,10 @@ func check(ctx *pbt.Ctx, c Case) error {
 	rec := &libexec.Recorder{}
 	opts := append(libexec.FlagOpts(flags, len(c.Lock)+len(c.Unlock)), interpreter.WithDebugger(rec))
 	if c.Invoke == 1 {
-		unlockObj = bscript.NewFromBytes(append([]byte{}, c.Unlock...))
+		unlockObj = bscript.NewFromBytes(ref.Canary(c.Unlock))
 		opts = append(opts, interpreter.WithScripts(lockObj, unlockObj))
 	} else if c.Invoke == 2 {
-		unlockObj = bscript.NewFromBytes(append([]byte{}, c.Unlock...))
+		unlockObj = bscript.NewFromBytes(ref.Canary(c.Unlock))
 		opts = append(opts, interpreter.WithTx(tx, 0, prev), interpreter.WithScripts(lockObj, unlockObj))
 	} else {
 		opts = append(opts, interpreter.WithTx(tx, 0, prev))
@@ -100,7 +100,13 @@ func check(ctx *pbt.Ctx, c Case) error {
 	}
 	ctx.Label("level=" + c.Level)
 	ctx.Labelf("invoke=%d", c.Invoke)
-	// (i) caller data
+	// (i) caller data, including the bytes behind every slice that was handed over
+	if d := ref.CanaryDamage(tx); d != "" {
+		return fmt.Errorf("%s (unlock %x lock %x flags %#x)", d, []byte(c.Unlock), []byte(c.Lock), c.Flags)
+	}
+	if ref.CanaryDamaged(*lockObj) || ref.CanaryDamaged(*unlockObj) {
+		return fmt.Errorf("the bytes behind a script slice handed to the engine were overwritten (unlock %x lock %x flags %#x)", []byte(c.Unlock), []byte(c.Lock), c.Flags)
+	}
 	if !bytes.Equal(*lockObj, c.Lock) {
 		return fmt.Errorf("locking script bytes changed by execution: before %x after %x (unlock %x flags %#x)", []byte(c.Lock), []byte(*lockObj), []byte(c.Unlock), c.Flags)
 	}
